@@ -34,6 +34,10 @@ pub struct PoolMember {
     pub seed: SeedSpec,
     pub bulk: u64,
     pub invalid: Option<Invalid>,
+    /// when set (and this is not the first pool member): take everything except `invalid` from that earlier pool member,
+    /// so that the batch can contain a valid member next to an altered copy of itself
+    #[serde(default)]
+    pub twin_of: Option<u8>,
 }
 
 #[derive(Clone, Debug, Serialize, Deserialize, PartialEq, Eq, Hash)]
@@ -95,6 +99,7 @@ pub fn pool_member() -> impl Strategy<Value = PoolMember> {
             rng,
             seed,
             bulk,
+            twin_of: if invalid.is_some() && bulk % 3 == 0 { Some((bulk >> 8) as u8) } else { None },
             invalid,
         })
 }
@@ -189,10 +194,7 @@ pub fn build_member<E: Engine>(bits: usize, ext: usize, pm: &PoolMember, max_nm:
                 Ok(p) => p,
                 Err(_) => return Ok(honest(&t, proof)),
             };
-            // the altered proof must keep the batch's extension degree (otherwise it is a shape case, handled elsewhere)
-            if bytes[0] as usize != ext {
-                return Ok(honest(&t, proof));
-            }
+            // a proof whose degree tag / d1 length no longer matches the statements is simply an invalid member
             let (lib_ok, holds, _) = verdicts::<E>(&ps, &t.st, &bytes, None)?;
             if lib_ok != holds {
                 return Err(format!("singleton verdict {} but reference relation holds = {}", lib_ok, holds));
@@ -280,8 +282,28 @@ pub fn batch_oracle<E: Engine>(ctx: &RunCtx, spec: &BatchSpec, log: &mut CaseLog
         bits = 8;
     }
     let _ = ctx;
-    let pool: Vec<Member<E>> = spec
+    let mut twins: Vec<Option<usize>> = vec![];
+    let resolved: Vec<PoolMember> = spec
         .pool
+        .iter()
+        .enumerate()
+        .map(|(i, pm)| match pm.twin_of {
+            Some(t) if i > 0 => {
+                let b = t as usize % i;
+                twins.push(Some(b));
+                PoolMember {
+                    invalid: pm.invalid.clone(),
+                    twin_of: None,
+                    ..spec.pool[b].clone()
+                }
+            },
+            _ => {
+                twins.push(None);
+                pm.clone()
+            },
+        })
+        .collect();
+    let pool: Vec<Member<E>> = resolved
         .iter()
         .map(|pm| build_member::<E>(bits, spec.ext, pm, max_nm::<E>(bits, k)))
         .collect::<Result<_, _>>()?;
@@ -308,8 +330,19 @@ pub fn batch_oracle<E: Engine>(ctx: &RunCtx, spec: &BatchSpec, log: &mut CaseLog
                 PosSpec::Frac(f) => pick(*f, k),
             };
             if pos < k {
-                seq[pos] = invalid_idx[n % invalid_idx.len()];
+                let inv = invalid_idx[n % invalid_idx.len()];
+                seq[pos] = inv;
                 inv_positions.push(pos);
+                // an altered copy directly after (or before) the valid member it was derived from
+                if let Some(b) = twins[inv] {
+                    if pool[b].valid {
+                        if pos >= 1 && !inv_positions.contains(&(pos - 1)) {
+                            seq[pos - 1] = b;
+                        } else if pos + 1 < k && !inv_positions.contains(&(pos + 1)) {
+                            seq[pos + 1] = b;
+                        }
+                    }
+                }
             }
         }
     }
